@@ -2,6 +2,7 @@
    Examples show the hypotheses are satisfiable / give the refutation witnesses. *)
 From Coq Require Import List NArith ZArith Bool Lia.
 From V Require Import C16.Model C16.Proofs C16.Proofs_B C16.Proofs_C C16.Proofs_D.
+From V Require Import C16.Proofs_migrate C16.Proofs_migrate_B C16.Proofs_migrate_C C16.Proofs_migrate_D.
 Import ListNotations.
 Open Scope N_scope.
 
@@ -241,3 +242,208 @@ Example find_oldest_example :
   find_oldest (fun n => 100 + 10 * n) 2 20 155 = Some 6 /\
   find_oldest (fun n => 100 + 10 * n) 2 20 1000 = None.
 Proof. vm_compute. split; reflexivity. Qed.
+
+(* ================================================================ the history-pruner migration
+   (migration/historyprunner as repaired in /repo, model C16/Migrate.v). ch = the chain (head, timestamps,
+   diff sizes), u = the database before the migration (chain_ok: unpruned 0..head, empty scratch namespace,
+   logs only for diff entries), l1 = the L1 head, runs = ANY list of starts of the node, each with its own
+   configuration (retained blocks, min-age cut-off time) and its own schedule (how the pipeline spread the
+   blocks over workers and batches, in which order the batches were committed, where the call was
+   cancelled / which batch write failed / after how many commits the process died - the scratch-wipe
+   commit included). runs_wf asks only that each schedule is one the pipeline can produce (sched_ok -
+   repeats allowed) and that, while no blob is stored, the flags still leave something to do
+   (retained <= min(l1, head)). *)
+
+(* ---- the cut-off. o = the oldest block still retained when it is computed: 0 on an untouched database,
+   the cut-off of an earlier start that pruned and stopped before a blob was stored otherwise. Never below
+   o, inside the chain, exact uint64 subtraction, either o itself or within min(l1, head) - retained, and
+   at or below every block of [o, pivot] that is younger than the minimum age NOW (the wall clock may have
+   advanced between starts; non-decreasing timestamps) ---- *)
+Theorem C16_migrate_floor_bound : forall ch g l1 o f, c_head ch < W64 -> o <= c_head ch ->
+  floor_from ch g l1 o = Some f ->
+  let pivot := N.min l1 (c_head ch) in
+  g_retained g <= pivot /\ o <= f /\ f <= c_head ch /\
+  (f = o \/ f + g_retained g <= pivot) /\
+  sub64 pivot (g_retained g) = pivot - g_retained g /\
+  (g_cutoff g = None -> f = N.max (pivot - g_retained g) o) /\
+  (forall cut, g_cutoff g = Some cut ->
+     (forall a b, o <= a -> a <= b -> b <= pivot -> c_ts ch a <= c_ts ch b) ->
+     forall b, o <= b -> b <= pivot -> cut <= c_ts ch b -> f <= b).
+Proof. exact floor_from_bound. Qed.
+Print Assumptions C16_migrate_floor_bound.
+
+Theorem C16_migrate_floor_predicate : forall ch g l1 f, c_head ch < W64 -> floor_from ch g l1 0 = Some f ->
+  bound_ok l1 (c_head ch) (g_retained g) f = true.
+Proof. exact floor_from_fresh. Qed.
+Print Assumptions C16_migrate_floor_predicate.
+
+(* ---- every schedule of interruptions followed by a completing start: the database is exactly the
+   pruned shape at F - the cut-off the completing start worked with - on every block family (incl. the
+   rebuilt reverse lookups and the hash->number carve-out of F-1), every history log of the keeper window
+   is back with its value, nothing below, nothing left in the scratch namespace, marker included ---- *)
+Theorem C16_migrate_any_schedule : forall ch u l1 runs m' pb' F,
+  chain_ok ch u ->
+  runs_wf ch (Some l1) runs u None = true ->
+  run_all ch (Some l1) runs u None = (m', pb', Some F) ->
+  F <= c_head ch /\
+  (forall f i, f <> Hist -> blk m' f i = blk (mig_final u F) f i) /\
+  (forall i j, hlog m' i j = hlog (mig_final u F) i j) /\
+  (forall i j, scr m' i j = scr (mig_final u F) i j) /\ mark m' = mark (mig_final u F).
+Proof. exact migrate_any_schedule. Qed.
+Print Assumptions C16_migrate_any_schedule.
+
+(* ---- what an interrupted database looks like, after ANY schedule, relative to the cut-off F it is
+   committed to (the one pinned in the stored blob; with nothing pinned: what the last un-pinned start pruned
+   to = the oldest retained block, and every cut-off a later start can compute is at or above it): block
+   data at or above F is untouched on every number-keyed family (headers, transactions, state updates,
+   commitments, new-value history, bloom windows); every history log of the keeper window still exists with
+   its value, in the history bucket or in the scratch namespace, and neither place holds a wrong value. The
+   three reverse-lookup families (hash->number, tx hash, L1 message hash) may be empty and the history
+   buckets may be empty between setupBeforeStager and the end: the node does not start before the migration
+   has completed (migration/runner.go, property C18). ---- *)
+Theorem C16_migrate_interrupted_state : forall ch u l1 runs m' pb',
+  chain_ok ch u ->
+  runs_wf ch (Some l1) runs u None = true ->
+  run_all ch (Some l1) runs u None = (m', pb', None) ->
+  exists F, F <= c_head ch /\
+  (forall sp rp fl, pb' = Some (sp, rp, fl) -> fl = F) /\
+  (pb' = None -> oldest_retained ch m' = F /\
+     forall g f, floor_from ch g l1 (oldest_retained ch m') = Some f -> F <= f /\ f <= c_head ch) /\
+  (forall f i, is_look f = false -> f <> Hist -> F <= i -> blk m' f i = blk u f i) /\
+  (forall i j, F <= i -> i <= c_head ch ->
+     (hlog m' i j = hlog u i j \/ scr m' i j = hlog u i j) /\
+     (hlog m' i j = None \/ hlog m' i j = hlog u i j) /\ (scr m' i j = None \/ scr m' i j = hlog u i j)).
+Proof. exact migrate_interrupted_state. Qed.
+Print Assumptions C16_migrate_interrupted_state.
+
+(* ---- resumable: from wherever a schedule has left the database, the next start can compute its cut-off
+   (no read of a pruned header any more) and an undisturbed start completes the migration ---- *)
+Theorem C16_migrate_resumable : forall ch u l1 runs m pb g,
+  chain_ok ch u ->
+  runs_wf ch (Some l1) runs u None = true ->
+  run_all ch (Some l1) runs u None = (m, pb, None) ->
+  (pb = None -> g_retained g <= N.min l1 (c_head ch)) ->
+  exists F m',
+    run_floor ch (Some l1) g pb m = Some F /\ F <= c_head ch /\
+    mig_run ch (Some l1) g pb m (match start_of ch m pb F with (sp, rp, fl) => canon ch sp rp fl end) = (m', RDone) /\
+    (forall f i, f <> Hist -> blk m' f i = blk (mig_final u F) f i) /\
+    (forall i j, hlog m' i j = hlog (mig_final u F) i j) /\
+    (forall i j, scr m' i j = scr (mig_final u F) i j) /\ mark m' = mark (mig_final u F).
+Proof. exact migrate_resumable. Qed.
+Print Assumptions C16_migrate_resumable.
+
+(* ---- pinned: once a blob is stored the configuration of later starts is not consulted, and every blob a
+   call returns carries the cut-off that call worked with ---- *)
+Theorem C16_migrate_pinned_ignores_config : forall ch l1 g g' b m sc,
+  mig_run ch l1 g (Some b) m sc = mig_run ch l1 g' (Some b) m sc.
+Proof. exact pinned_ignores_config. Qed.
+Print Assumptions C16_migrate_pinned_ignores_config.
+
+Theorem C16_migrate_blob_carries_floor : forall ch l1 g pb m sc m' a b c,
+  mig_run ch (Some l1) g pb m sc = (m', RBlob a b c) -> run_floor ch (Some l1) g pb m = Some c.
+Proof. exact blob_carries_floor. Qed.
+Print Assumptions C16_migrate_blob_carries_floor.
+
+(* ---- no underflow: the seed of the reverse lookup below the window is guarded by floor > 0 and then
+   floor-1 is exact; without the guard (before /repo d372be8) floor 0 asked for block 2^64-1 ---- *)
+Theorem C16_migrate_no_underflow : forall fl, 0 < fl -> fl < W64 ->
+  setup2_ops fl = [MWipeHist; MSeed (fl - 1)].
+Proof. exact seed_guarded. Qed.
+Print Assumptions C16_migrate_no_underflow.
+
+Example C16_migrate_floor_zero :
+  setup2_ops 0 = [MWipeHist] /\ setup2_seed_unguarded 0 = 18446744073709551615.
+Proof. split; reflexivity. Qed.
+
+(* ---- a block processed more than once (a restart that repeats blocks, the re-staging after the restage
+   decision, two workers) changes nothing ---- *)
+Theorem C16_migrate_repeated_stage : forall ch m l l',
+  (forall n, In n l' -> In n l) ->
+  let a := mapply_ops ch m (map MStage (l ++ l')) in
+  let b := mapply_ops ch m (map MStage l) in
+  blk a = blk b /\ hlog a = hlog b /\ forall i j, scr a i j = scr b i j.
+Proof. exact stage_twice. Qed.
+Print Assumptions C16_migrate_repeated_stage.
+
+Theorem C16_migrate_repeated_restore : forall ch m l l',
+  (forall n, In n l' -> In n l) ->
+  let a := mapply_ops ch m (map MRestore (l ++ l')) in
+  let b := mapply_ops ch m (map MRestore l) in
+  (forall f i, blk a f i = blk b f i) /\ scr a = scr b /\ forall i j, hlog a i j = hlog b i j.
+Proof. exact restore_twice. Qed.
+Print Assumptions C16_migrate_repeated_restore.
+
+(* ---- the two schedules that lost history logs before the repairs in /repo are now inside the theorem
+   (runs_wf holds for them) and end in mig_final. First: cancel in the stager (blob (3,0,2)), a start that
+   completes and dies right after the scratch wipe, a completing start. The last conjunct is what the OLD
+   loop did on that database: trusting stagerProgress 3 it staged block 3 only, wiped the history buckets
+   and had no copy of block 2's log (value 102) - the migration reported success. ---- *)
+Example C16_migrate_crash_after_wipe_example :
+  let r := run_all wit_ch (Some 3) wit_runs_crash_after_wipe wit_u None in
+  runs_wf wit_ch (Some 3) wit_runs_crash_after_wipe wit_u None = true /\
+  snd r = Some 2 /\ hlog (fst (fst r)) 2 0 = Some 102 /\ hlog (fst (fst r)) 3 0 = Some 103 /\
+  (let r2 := run_all wit_ch (Some 3) (firstn 2 wit_runs_crash_after_wipe) wit_u None in
+   let m2 := fst (fst r2) in
+   snd (fst r2) = Some (3, 0, 2) /\ scr_empty wit_ch m2 = true /\
+   hlog (mapply_batches wit_ch m2 (fst (mig_plan wit_ch m2 3 0 2 (sched [[3]] [[3; 2]] SNone None)))) 2 0 = None).
+Proof. vm_compute. repeat split; reflexivity. Qed.
+
+(* Second: as before, but the re-staging start dies after two commits (set-up, one worker's batch holding
+   block 3 only). The scratch namespace is no longer empty and the stored blob still says 3: the marker
+   written by the restage decision is what makes the fourth start stage block 2 again. A rule "re-stage
+   when scratch is empty" alone trusts the blob here and loses block 2 (last conjunct). ---- *)
+Example C16_migrate_partial_restage_example :
+  let r := run_all wit_ch (Some 3) wit_runs_partial_restage wit_u None in
+  runs_wf wit_ch (Some 3) wit_runs_partial_restage wit_u None = true /\
+  snd r = Some 2 /\ hlog (fst (fst r)) 2 0 = Some 102 /\ mark (fst (fst r)) = false /\
+  (let r3 := run_all wit_ch (Some 3) (firstn 3 wit_runs_partial_restage) wit_u None in
+   let m3 := fst (fst r3) in
+   snd (fst r3) = Some (3, 0, 2) /\ mark m3 = true /\ scr_empty wit_ch m3 = false /\ scr m3 2 0 = None /\
+   hlog (mapply_batches wit_ch m3 (fst (mig_plan wit_ch m3 3 0 2 (sched [[3]] [[3; 2]] SNone None)))) 2 0 = None).
+Proof. vm_compute. repeat split; reflexivity. Qed.
+
+(* ---- min-age on, the first start fails (or dies) after its set-up batch and before any blob is stored:
+   nothing is pinned, the next start recomputes the cut-off. It now searches from the oldest retained
+   block (29): same cut-off when the clock stood still, 30 when it advanced past block 29's age, never
+   below 29 whatever the flags (retained 5 would give 25); the OLD search from block 0 read the header of
+   block 15, deleted by the set-up batch, and every later start failed ---- *)
+Example C16_migrate_min_age_restart_example :
+  let m1 := fst (mig_run wit_ch30 (Some 30) wit_g30 None wit_u30 (sched [] [] SFailStage None)) in
+  pure_floor wit_ch30 wit_g30 30 wit_u30 = Some 29 /\
+  next_blob None (snd (mig_run wit_ch30 (Some 30) wit_g30 None wit_u30 (sched [] [] SFailStage None))) = None /\
+  blk m1 Hdr 15 = false /\ oldest_retained wit_ch30 m1 = 29 /\
+  compute_floor wit_ch30 wit_g30 30 m1 = FOk 29 /\
+  compute_floor wit_ch30 {| g_retained := 0; g_cutoff := Some 1295 |} 30 m1 = FOk 30 /\
+  compute_floor wit_ch30 {| g_retained := 5; g_cutoff := Some 1205 |} 30 m1 = FOk 29 /\
+  reads_from wit_ch30 wit_g30 30 0 (blk m1 Hdr) = false.
+Proof. vm_compute. repeat split; reflexivity. Qed.
+
+(* ---- the remaining hypothesis of runs_wf is needed: with nothing pinned, flags with retained >
+   min(l1, head) make the call answer "nothing to do" (nil, nil) although an earlier start already wiped the
+   reverse lookups - the runner marks the migration applied (operator-induced; outside the property's
+   quantifier). Raising retained within min(l1, head) is harmless now: the cut-off is clamped to what is
+   still there (2, not 1) ---- *)
+Example C16_migrate_unpinned_config_change_needed :
+  let m1 := fst (mig_run wit_ch (Some 3) wit_g None wit_u (sched [] [] SFailStage None)) in
+  let g2 := {| g_retained := 2; g_cutoff := None |} in
+  let g9 := {| g_retained := 9; g_cutoff := None |} in
+  compute_floor wit_ch g2 3 m1 = FOk 2 /\ floor_from wit_ch g2 3 0 = Some 1 /\
+  snd (mig_run wit_ch (Some 3) g2 None m1 (canon wit_ch 0 0 2)) = RDone /\
+  mig_run wit_ch (Some 3) g9 None m1 (canon wit_ch 0 0 2) = (m1, RDone) /\ blk m1 H2n 3 = false.
+Proof. vm_compute. repeat split; reflexivity. Qed.
+
+(* ---- the statements are not vacuous: a database that meets chain_ok; a schedule with a cancel in the
+   stager, a cancel in the restorer, a failed batch write, a crash, changed flags, two workers and a
+   repeated block is well-formed, completes, and leaves exactly mig_final ---- *)
+Example C16_migrate_hypotheses_satisfiable : chain_ok wit_ch wit_u /\ chain_ok wit_ch30 wit_u30.
+Proof. split; [exact wit_chain_ok|exact wit30_chain_ok]. Qed.
+
+Example C16_migrate_schedule_example :
+  let r := run_all wit_ch (Some 3) wit_runs_ok wit_u None in
+  let m' := fst (fst r) in
+  runs_wf wit_ch (Some 3) wit_runs_ok wit_u None = true /\ snd r = Some 2 /\
+  map (fun f => store_bits (blk m') f 6) [Hdr; H2n; Txs; Txl; L1l; Su; Cm] =
+  map (fun f => store_bits (blk (mig_final wit_u 2)) f 6) [Hdr; H2n; Txs; Txl; L1l; Su; Cm] /\
+  map (fun i => hlog m' i 0) [0; 1; 2; 3] = [None; None; Some 102; Some 103] /\
+  map (fun i => scr m' i 0) [0; 1; 2; 3] = [None; None; None; None] /\ mark m' = false.
+Proof. vm_compute. repeat split; reflexivity. Qed.
